@@ -286,3 +286,25 @@ def enumerate_cases(tier):
                     continue
                 h = [_construct(a)] + ([{"op": "encode", "doc": 0}] if enc_first else []) + [_construct(b, {"from": 0, "what": what})]
                 yield {"history": h}
+
+
+def reductions(case):
+    """Shorter histories: drop one operation (never the first construct), drop sharing."""
+    import copy as _copy
+    h = case["history"]
+    for i in range(len(h) - 1, 0, -1):
+        yield {"history": h[:i] + h[i + 1:]}
+    for i, op in enumerate(h):
+        if op.get("share"):
+            c = _copy.deepcopy(h)
+            del c[i]["share"]
+            yield {"history": c}
+            if len(op["share"]["what"]) > 1:
+                for w in op["share"]["what"]:
+                    c = _copy.deepcopy(h)
+                    c[i]["share"]["what"] = [w]
+                    yield {"history": c}
+        if op["op"] == "encode_twice":
+            c = _copy.deepcopy(h)
+            c[i]["op"] = "encode"
+            yield {"history": c}
